@@ -421,7 +421,7 @@ func TestC17(t *testing.T) {
 		b := genOp.Draw(t, "b")
 		return c17St{Filter: rapid.SampledFrom(c17Binary).Draw(t, "f"), B: &b}
 	})
-	col.Rapid(grid.Sub, env.PerShard(env.Pick(20000, 1000000)), func(t *rapid.T) {
+	col.Rapid(grid.Sub, env.PerShard(env.Pick(200000, 2000000)), func(t *rapid.T) {
 		steps := rapid.SliceOfN(genStep, 2, 6).Draw(t, "steps")
 		c := &c17Case{Filter: steps[0].Filter, A: genOp.Draw(t, "a"), B: steps[0].B, Chain: steps[1:]}
 		grid.Sub.Class(fmt.Sprintf("chain-len-%d", len(steps)))
